@@ -48,7 +48,7 @@ func perturb(seed int64) func() {
 // mode: 0 per-invocation injector, 1 per-invocation fallible injector (TerminalError first),
 //       2 static injector (key = init arguments of each chain), 3 interface-typed input with nil / "" / values
 func genMemo(r *rng) string {
-	mode := r.intn(4)
+	mode := r.intn(5)
 	nChains := 1 + r.intn(3)
 	nG := 2 + r.intn(7)
 	nUses := 3 + r.intn(12)
@@ -77,7 +77,12 @@ func runMemo(line string) string {
 	var mu sync.Mutex
 	calls := map[memoKey]int{}
 	var seq int32
+	var unhashableCalls int32
 	count := func(a any, b T0) T1 {
+		if _, isSlice := a.([]int); isSlice {
+			atomic.AddInt32(&unhashableCalls, 1)
+			return T1{P: int(atomic.AddInt32(&seq, 1)), S: b.S}
+		}
 		mu.Lock()
 		calls[memoKey{a, b}]++
 		mu.Unlock()
@@ -86,6 +91,10 @@ func runMemo(line string) string {
 	}
 	// key values: for mode 3 the interface input takes nil, "", 0 and a struct
 	mkKey := func(k int) (any, T0) {
+		if mode == 4 {
+			// a value that cannot be a map key: the function must be called each time, no panic
+			return []int{k}, T0{1, 1}
+		}
 		if mode == 3 {
 			switch k {
 			case 0:
@@ -162,6 +171,9 @@ func runMemo(line string) string {
 				}
 				a, b := mkKey(k)
 				r := c.invoke(a, b)
+				if mode == 4 {
+					continue
+				}
 				results[g][memoKey{a, b}] = append(results[g][memoKey{a, b}], r)
 			}
 		}()
@@ -170,6 +182,9 @@ func runMemo(line string) string {
 	wg.Wait()
 	if p := panicked.Load(); p != nil {
 		return "BAD panic: " + sanitize(p.(string))
+	}
+	if mode == 4 {
+		return fmt.Sprintf("MEMO-UNHASHABLE uses=%d calls=%d", nG*nUses, unhashableCalls)
 	}
 	// one call per distinct key used, every use of a key saw the same result
 	used := map[memoKey]T1{}
@@ -211,6 +226,11 @@ func runOnce(line string) string {
 	defer perturb(seed)()
 	var singletonCalls int32
 	single := nject.Singleton(func() T2 { runtime.Gosched(); return T2{P: int(atomic.AddInt32(&singletonCalls, 1))} })
+	var fallibleSingletonCalls int32
+	fsingle := nject.Singleton(func() (T4, nject.TerminalError) {
+		runtime.Gosched()
+		return T4{P: int(atomic.AddInt32(&fallibleSingletonCalls, 1))}, nil
+	})
 	type chain struct {
 		init   func(T0) (T2, T3)
 		invoke func() T3
@@ -222,7 +242,11 @@ func runOnce(line string) string {
 		chains[i] = c
 		err := nject.Sequence(fmt.Sprintf("o%d", i),
 			single,
-			nject.Cacheable(func(a T0, s T2) T3 { runtime.Gosched(); return T3{P: int(atomic.AddInt32(&c.static, 1)), S: a.S} }),
+			fsingle,
+			nject.Cacheable(func(a T0, s T2, f T4) T3 {
+				runtime.Gosched()
+				return T3{P: int(atomic.AddInt32(&c.static, 1)), S: a.S + 1000*f.P}
+			}),
 			func(t T3) T3 { return t },
 		).Bind(&c.invoke, &c.init)
 		if err != nil {
@@ -256,8 +280,8 @@ func runOnce(line string) string {
 	if p := panicked.Load(); p != nil {
 		return "BAD panic: " + sanitize(p.(string))
 	}
-	if singletonCalls != 1 {
-		return fmt.Sprintf("BAD singleton ran %d times", singletonCalls)
+	if singletonCalls != 1 || fallibleSingletonCalls != 1 {
+		return fmt.Sprintf("BAD singleton ran %d times, fallible singleton %d times", singletonCalls, fallibleSingletonCalls)
 	}
 	for i, c := range chains {
 		if c.static != 1 {
@@ -294,7 +318,11 @@ func runIsolation(line string) string {
 	var invoke func(T0, T1) (T4, error)
 	var staticCalls int32
 	providers := []any{
-		nject.Cacheable(func() T7 { atomic.AddInt32(&staticCalls, 1); return T7{9, 9} }),
+		nject.Cacheable(func() T7 {
+			atomic.AddInt32(&staticCalls, 1)
+			time.Sleep(200 * time.Microsecond) // a slow static provider widens the first-invocation window
+			return T7{9, 9}
+		}),
 		func(a T0) T2 { return T2{2, mix(a.S, 2)} },
 		func(inner func(T3) (T4, error), a T0, b T2) (T4, error) {
 			// calls inner twice with different arguments; returns the second result
@@ -335,6 +363,12 @@ func runIsolation(line string) string {
 	if err := nject.Sequence("iso", providers...).Bind(&invoke, nil); err != nil {
 		return "BAD bind: " + sanitize(err.Error())
 	}
+	// the reference comes from a twin chain, so that the first invocations of [invoke] race on its
+	// lazy static initialisation
+	var reference func(T0, T1) (T4, error)
+	if err := nject.Sequence("iso-ref", providers...).Bind(&reference, nil); err != nil {
+		return "BAD bind: " + sanitize(err.Error())
+	}
 	show := func(t T4, e error) string {
 		if e != nil {
 			return "e" + e.Error()
@@ -344,7 +378,7 @@ func runIsolation(line string) string {
 	// sequential reference
 	expected := make([]string, nInv)
 	for i := 0; i < nInv; i++ {
-		expected[i] = show(invoke(T0{1, i}, T1{1, 3 * i}))
+		expected[i] = show(reference(T0{1, i}, T1{1, 3 * i}))
 	}
 	var wg sync.WaitGroup
 	var bad atomic.Value
@@ -379,8 +413,8 @@ func runIsolation(line string) string {
 	if b := bad.Load(); b != nil {
 		return "BAD " + sanitize(b.(string))
 	}
-	if staticCalls != 1 {
-		return fmt.Sprintf("BAD static injector ran %d times", staticCalls)
+	if staticCalls != 2 { // once per bound chain: the chain under test and its twin
+		return fmt.Sprintf("BAD static injector ran %d times for two chains", staticCalls)
 	}
 	return "ISOLATED same_as_alone static_once"
 }
